@@ -9,9 +9,8 @@ Model of the manual-hint machinery of paroxython, as written in /repo now:
 
 Core Lean only (no Mathlib): this file is linked into the native driver.
 
-Model alphabet: code points 0x09–0x7E and `…` (U+2026). Outside it the model treats a character as
-"neither white space nor word character"; the harness only feeds characters for which that is true
-of the real engines.
+Character classes: fixed on ASCII and on `…` (U+2026); for every other character the classes `\w`
+and `\s` are oracle parameters (`CharOracle`), universally quantified in the theorems.
 -/
 namespace Paroxy.Hints
 
@@ -25,14 +24,32 @@ inductive Err
 
 /-! ### Character classes -/
 
-/-- `\s` of the `regex` module, on the model alphabet. -/
-def isSpaceRe (c : Char) : Bool := (9 ≤ c.toNat && c.toNat ≤ 13) || c.toNat == 32
+/-- The character classes of the real engines beyond ASCII, as ORACLE parameters (treatment R1): the
+theorems hold for every such pair of functions; in the correspondence runs the harness computes them
+with the real `regex` module and `str.isspace` for every non-ASCII character of the input.
+`word c` ⇔ `regex` `\w` matches `c`; `space c` ⇔ `regex` `\s` matches `c` ⇔ `c.isspace()` (the two
+agree on every non-ASCII character). -/
+structure CharOracle where
+  word : Char → Bool
+  space : Char → Bool
 
-/-- `str.isspace` (used by `str.split()` and `str.strip()`), on the model alphabet: also 0x1c–0x1f. -/
-def isSpacePy (c : Char) : Bool := isSpaceRe c || (28 ≤ c.toNat && c.toNat ≤ 31)
+/-- The oracle that knows no non-ASCII word or space character (used by the concrete examples). -/
+def asciiOracle : CharOracle := ⟨fun _ => false, fun _ => false⟩
 
-/-- `\w` of the `regex` module, on the model alphabet. -/
-def isWord (c : Char) : Bool := c.isAlphanum || c == '_'
+variable (O : CharOracle)
+
+/-- `\s` of the `regex` module: fixed on ASCII, `…` (U+2026) is not white space, the oracle elsewhere. -/
+def isSpaceRe (c : Char) : Bool :=
+  if c.toNat < 128 then (9 ≤ c.toNat && c.toNat ≤ 13) || c.toNat == 32
+  else c != '…' && O.space c
+
+/-- `str.isspace` (used by `str.split()` and `str.strip()`): also the separators 0x1c–0x1f. -/
+def isSpacePy (c : Char) : Bool := (isSpaceRe O) c || (28 ≤ c.toNat && c.toNat ≤ 31)
+
+/-- `\w` of the `regex` module: fixed on ASCII, `…` is not a word character, the oracle elsewhere. -/
+def isWord (c : Char) : Bool :=
+  if c.toNat < 128 then c.isAlphanum || c == '_'
+  else c != '…' && O.word c
 
 /-! ### Generic string primitives -/
 
@@ -78,15 +95,15 @@ def splitWs' : Str → Str × List Str
   | [] => ([], [])
   | c :: t =>
     let p := splitWs' t
-    if isSpacePy c then ([], if p.1 = [] then p.2 else p.1 :: p.2) else (c :: p.1, p.2)
+    if (isSpacePy O) c then ([], if p.1 = [] then p.2 else p.1 :: p.2) else (c :: p.1, p.2)
 
 /-- `str.split()`: maximal runs of non-white-space characters. -/
 def splitWs (s : Str) : List Str :=
-  let p := splitWs' s
+  let p := (splitWs' O) s
   if p.1 = [] then p.2 else p.1 :: p.2
 
 /-- `str.strip()`. -/
-def stripPy (s : Str) : Str := ((s.dropWhile isSpacePy).reverse.dropWhile isSpacePy).reverse
+def stripPy (s : Str) : Str := ((s.dropWhile (isSpacePy O)).reverse.dropWhile (isSpacePy O)).reverse
 
 /-! ### The hint marker and the four regexes -/
 
@@ -102,7 +119,7 @@ def ell : Char := '…'
 without `\n`: after the white space and the marker comes either the end of the line, or a space and
 the rest of the line (possibly empty); anything else is not an isolated hint. -/
 def isolatedRest (line : Str) : Option Str :=
-  let r := line.dropWhile isSpacePy
+  let r := line.dropWhile (isSpacePy O)
   if m13.isPrefixOf r then
     match r.drop 13 with
     | [] => some []
@@ -133,23 +150,23 @@ def matchLabel (t : Str) : Option (Before × Str × Bool) :=
     | c :: r => if c = ell then (.dots, r) else (.none, c :: r)
     | [] => (.none, [])
   match p.2 with
-  | c :: _ => if isWord c then some (p.1, (splitAfter p.2).1, (splitAfter p.2).2) else none
+  | c :: _ => if (isWord O) c then some (p.1, (splitAfter p.2).1, (splitAfter p.2).2) else none
   | [] => none
 
 /-- `regex.compile(r"[\s\x1c-\x1f]*# paroxython: .*").sub("", text)` over the WHOLE text: a match starts at
 the first position from which a run of white space (newlines included) is followed by the marker,
 and extends to the end of the marker's line. -/
-def hintAhead (s : Str) : Bool := m14.isPrefixOf (s.dropWhile isSpacePy)
+def hintAhead (s : Str) : Bool := m14.isPrefixOf (s.dropWhile (isSpacePy O))
 
 def subHints : Bool → Str → Str
   | _, [] => []
   | skipping, c :: t =>
     if skipping && c != '\n' then subHints true t
-    else if hintAhead (c :: t) then subHints true t
+    else if (hintAhead O) (c :: t) then subHints true t
     else c :: subHints false t
 
 /-- `remove_hints`. -/
-def removeHints (s : Str) : Str := stripPy (subHints false s)
+def removeHints (s : Str) : Str := (stripPy O) ((subHints O) false s)
 
 /-! ### `centrifugate_hints` -/
 
@@ -166,8 +183,8 @@ def scanIsolated : List Str → List Str × List Str
   | [] => ([], [])
   | l :: ls =>
     let p := scanIsolated ls
-    match isolatedRest l with
-    | some rest => (p.1, splitWs rest ++ p.2)
+    match (isolatedRest O) l with
+    | some rest => (p.1, (splitWs O) rest ++ p.2)
     | none => (l :: p.1, p.2)
 
 /-- `if " # paroxython:" not in line: line += " # paroxython:"`. -/
@@ -185,15 +202,15 @@ def centLines (hs : List Str) : List Str → List Str
       ((l2 :: ls).dropLast ++ [addMarker ((l2 :: ls).getLast (by simp)) ++ hs.flatMap closeTok])
 
 /-- `not line.strip()`. -/
-def blankPy (l : Str) : Bool := l.all isSpacePy
+def blankPy (l : Str) : Bool := l.all (isSpacePy O)
 
 /-- The two `while lines and not lines[i].strip(): del lines[i]` loops: blank lines left at the ends
 once the isolated hints are gone are not numbered. -/
-def trimBlank (ls : List Str) : List Str := ((ls.dropWhile blankPy).reverse.dropWhile blankPy).reverse
+def trimBlank (ls : List Str) : List Str := ((ls.dropWhile (blankPy O)).reverse.dropWhile (blankPy O)).reverse
 
 def centrifugate (src : Str) : Except Err Str :=
-  let p := scanIsolated (splitNL src)
-  let kept := trimBlank p.1
+  let p := (scanIsolated O) (splitNL src)
+  let kept := (trimBlank O) p.1
   if p.2 = [] then .ok (joinNL kept)
   else match kept with
     | [] => .error .indexError
@@ -256,25 +273,25 @@ def stepEv (i : Nat) (st : Bufs) (t : Tok) : Except Err Bufs :=
   | _, false => .ok { st with add := st.add.append t.label i }
 
 def stepTok (i : Nat) (st : Bufs) (tok : Str) : Except Err Bufs :=
-  match matchLabel tok with
-  | none => .error .valueError                   -- "Malformed hint"
+  match (matchLabel O) tok with
+  | none => .error .valueError                   -- "(Malformed O) hint"
   | some (b, L, a) => stepEv i st ⟨b, L, a⟩
 
 /-- The tokens of the hint comment of a line (`[]` when the line has no `# paroxython: `). -/
 def hintTokens (line : Str) : List Str :=
   match partitionAt m14 line with
-  | some p => splitWs p.2
+  | some p => (splitWs O) p.2
   | none => []
 
 /-- All (line number, token) pairs of a text, in reading order; lines are numbered from 1. -/
 def numberedTokens (i : Nat) : List Str → List (Nat × Str)
   | [] => []
-  | l :: ls => (hintTokens l).map (fun t => (i, t)) ++ numberedTokens (i + 1) ls
+  | l :: ls => ((hintTokens O) l).map (fun t => (i, t)) ++ numberedTokens (i + 1) ls
 
 def runToks (st : Bufs) : List (Nat × Str) → Except Err Bufs
   | [] => .ok st
   | (i, t) :: rest =>
-    match stepTok i st t with
+    match (stepTok O) i st t with
     | .ok st' => runToks st' rest
     | .error e => .error e
 
@@ -302,13 +319,13 @@ def finish (st : Bufs) : Except Err (Sched × Sched) :=
   else .ok (getResult st.add.result, getResult st.del.result)
 
 def collectToks (toks : List (Nat × Str)) : Except Err (Sched × Sched) :=
-  match runToks {} toks with
+  match (runToks O) {} toks with
   | .ok st => finish st
   | .error e => .error e
 
 /-- `collect_hints(source)`. -/
 def collectHints (src : Str) : Except Err (Sched × Sched) :=
-  collectToks (numberedTokens 1 (splitNL src))
+  (collectToks O) ((numberedTokens O) 1 (splitNL src))
 
 /-! ### Marker normalisation and trimming (first steps of `get_program`) -/
 
@@ -341,18 +358,18 @@ def nstep (st : NState) (c : Char) : NAct :=
   if c = '#' then .hash
   else match st with
     | .idle => .reset
-    | .hash => if isSpaceRe c then .cont .hash else if letterAt 0 c then .cont (.letters 1) else .reset
+    | .hash => if (isSpaceRe O) c then .cont .hash else if letterAt 0 c then .cont (.letters 1) else .reset
     | .letters k =>
       if k < 10 then (if letterAt k c then .cont (.letters (k + 1)) else .reset)
-      else if c = ':' then .accept else if isSpaceRe c then .cont .after else .reset
-    | .after => if c = ':' then .accept else if isSpaceRe c then .cont .after else .reset
-    | .tail => if isSpaceRe c then .drop else .reset
+      else if c = ':' then .accept else if (isSpaceRe O) c then .cont .after else .reset
+    | .after => if c = ':' then .accept else if (isSpaceRe O) c then .cont .after else .reset
+    | .tail => if (isSpaceRe O) c then .drop else .reset
 
 /-- `pend` is the text of the pending attempt (emitted unchanged if the attempt fails). -/
 def normGo : NState → Str → Str → Str
   | _, pend, [] => pend
   | st, pend, c :: t =>
-    match nstep st c with
+    match (nstep O) st c with
     | .cont s => normGo s (pend ++ [c]) t
     | .reset => pend ++ c :: normGo .idle [] t
     | .hash => pend ++ normGo .hash ['#'] t
@@ -360,7 +377,7 @@ def normGo : NState → Str → Str → Str
     | .drop => normGo .tail [] t
 
 /-- `Cleanup.normalize_paroxython_comments(line)[0]` for a line without `\n`. -/
-def normLine (l : Str) : Str := normGo .idle [] l
+def normLine (l : Str) : Str := (normGo O) .idle [] l
 
 /-- What `\A(\s*\n)+` leaves of the leading white space `w`: what follows its last newline. -/
 def keepAfterLastNL (w : Str) : Str :=
@@ -368,11 +385,11 @@ def keepAfterLastNL (w : Str) : Str :=
 
 /-- `regex.sub(r"\A(\s*\n)+|\s+\Z", "", text)`: leading blank lines and trailing white space go. -/
 def trimEnds (s : Str) : Str :=
-  let lead := keepAfterLastNL (s.takeWhile isSpaceRe) ++ s.dropWhile isSpaceRe
-  (lead.reverse.dropWhile isSpaceRe).reverse
+  let lead := keepAfterLastNL (s.takeWhile (isSpaceRe O)) ++ s.dropWhile (isSpaceRe O)
+  (lead.reverse.dropWhile (isSpaceRe O)).reverse
 
 /-- The text `get_program` numbers the hints on. -/
-def prepare (src : Str) : Str := trimEnds (joinNL ((splitNL src).map normLine))
+def prepare (src : Str) : Str := (trimEnds O) (joinNL ((splitNL src).map (normLine O)))
 
 /-! ### `get_program` -/
 
@@ -384,15 +401,15 @@ structure Program where
 
 /-- `get_program` from the prepared text on: centrifugate, collect, remove. -/
 def getProgramFrom (text : Str) : Except Err Program :=
-  match centrifugate text with
+  match (centrifugate O) text with
   | .error e => .error e
   | .ok c =>
-    match collectHints c with
+    match (collectHints O) c with
     | .error e => .error e
-    | .ok (a, d) => .ok ⟨removeHints c, a, d⟩
+    | .ok (a, d) => .ok ⟨(removeHints O) c, a, d⟩
 
 /-- `get_program(source)`. -/
-def getProgram (src : Str) : Except Err Program := getProgramFrom (prepare src)
+def getProgram (src : Str) : Except Err Program := (getProgramFrom O) ((prepare O) src)
 
 /-- Number of lines of a listing (`text.count("\n") + 1`). -/
 def lineCount (s : Str) : Nat := (splitNL s).length
